@@ -87,9 +87,13 @@ A_KUSE = Atom("use(k)", "use(k)", (("use", "k"),))
 A_KINC = Atom("k=k+1", "k = k + nat(1)", (("use", "k"), ("def", "k", "I")))
 A_KSET = Atom("k=2", "k = nat(2)", (("def", "k", "I"),))
 COMPTIME_PARAM_ATOMS = (A_KUSE, A_KINC, A_KSET, A_X1, A_UX, A_RET)
+# an assignment expression to the RIGHT of a read of the same name inside one expression: the read comes first
+A_WAL = Atom("y=x+(x:=2)", "y = x + (x := 2)", (("use", "x"), ("def", "x", "I"), ("def", "y", "I")))
+A_WAL2 = Atom("y=(x:=2)+x", "y = (x := 2) + x", (("def", "x", "I"), ("use", "x"), ("def", "y", "I")))
+WALRUS_ATOMS = (A_WAL, A_WAL2, A_X1, A_UX, A_UY, A_RET)
 LIT_ATOMS = (A_X1, A_UX, A_YX, A_UY, A_RET)
 TYPED_ATOMS = (A_XT, A_X2, A_YX, A_UX, A_UY, A_RET)
-ALL_ATOMS = (A_X1, A_XT, A_X2, A_YX, A_UX, A_UY, A_RET, A_DEF, A_CALL, A_Y1, A_DEF2, A_GUSE, A_GDEF, A_YG, A_KUSE, A_KINC, A_KSET)
+ALL_ATOMS = (A_X1, A_XT, A_X2, A_YX, A_UX, A_UY, A_RET, A_DEF, A_CALL, A_Y1, A_DEF2, A_GUSE, A_GDEF, A_YG, A_KUSE, A_KINC, A_KSET, A_WAL, A_WAL2)
 
 PRELUDE_MOD = "vc08_prelude"
 PRELUDE_SRC = (
@@ -126,6 +130,7 @@ def bounds(tier: str) -> dict:
             "nested2": [(5, 2, W, False)],
             "shadow-global": [(4, 2, W, False)],
             "comptime-param": [(3, 2, W, False)],
+            "walrus": [(3, 2, W, False)],
             "dead": [(3, 2, WF, False)],
             "dead-typed": [(4, 1, W, False)],
             "literal": [(3, 2, WF, False)],
@@ -137,6 +142,7 @@ def bounds(tier: str) -> dict:
         "nested2": [(6, 2, W, False), (4, 2, WF, True)],
         "shadow-global": [(5, 3, W, False), (4, 2, WF, True)],
         "comptime-param": [(4, 2, WF, False)],
+        "walrus": [(4, 2, WF, False)],
         "dead": [(4, 2, WF, False)],
         "dead-typed": [(4, 2, WF, False)],
         "literal": [(4, 2, WF, False)],
@@ -195,6 +201,9 @@ def programs(tier: str):
     for body in _enum(GLOBAL_ATOMS, b["shadow-global"]):
         if _contains(body, A_GDEF):
             yield ("shadow-global", body, None)
+    for body in _enum(WALRUS_ATOMS, b["walrus"]):
+        if _contains(body, A_WAL) or _contains(body, A_WAL2):
+            yield ("walrus", body, None)
     for body in _enum(COMPTIME_PARAM_ATOMS, b["comptime-param"]):
         if _contains(body, A_KINC) or _contains(body, A_KSET):
             yield ("comptime-param", body, None)
@@ -492,6 +501,8 @@ def _fam(family: str) -> str:
         return "shadow-global"
     if family == "comptime-param":
         return "comptime-param"
+    if family == "walrus":
+        return "walrus"
     if family.startswith("dead"):
         return "unreachable-code"
     return "flat"
